@@ -43,6 +43,7 @@ type Contract struct {
 	GhostSets   []*Clause
 	Joins       []*Clause
 	Hypotheses  []*Clause
+	Schemas     []*Clause // Anchor: encoder side, Target: decoder side
 	Refines     []string
 	Trusted     bool
 	Opaque      bool // results are fresh unknowns; no other effect
@@ -171,7 +172,7 @@ func (cs *ContractSet) LoadContractFile(path, pkg string) error {
 		}
 		lines = append(lines, rawLine{t, n})
 	}
-	keywords := []string{"func ", "pred ", "ghost ", "uf ", "axiom ", "invariant ", "fieldrange ", "requires", "ensures", "modifies", "decreases", "loop ", "assert", "ghostset", "refines", "trusted", "opaque", "assumption ", "fieldproto ", "role ", "allocates", "interface", "join ", "hypothesis", "deterministic"}
+	keywords := []string{"func ", "pred ", "ghost ", "uf ", "axiom ", "invariant ", "fieldrange ", "requires", "ensures", "modifies", "decreases", "loop ", "assert", "ghostset", "refines", "trusted", "opaque", "assumption ", "fieldproto ", "role ", "allocates", "interface", "join ", "hypothesis", "deterministic", "schema"}
 	isKw := func(s string) bool {
 		s = strings.TrimSpace(s)
 		for _, k := range keywords {
@@ -473,6 +474,14 @@ func (cs *ContractSet) LoadContractFile(path, pkg string) error {
 				cur.Opaque = true
 			case strings.HasPrefix(t, "allocates"):
 				cur.Allocates = true
+			case strings.HasPrefix(t, "schema"):
+				// schema [label props] ENC => DEC   (each side: TypeName | FuncKey:Type | FuncKey:var(name))
+				label, props, rest := takeLabel(strings.TrimSpace(strings.TrimPrefix(t, "schema")))
+				parts := strings.Split(rest, "=>")
+				if len(parts) != 2 {
+					return fail(l, "bad schema clause")
+				}
+				cur.Schemas = append(cur.Schemas, &Clause{Kind: "schema", Label: label, Props: props, Anchor: strings.TrimSpace(parts[0]), Target: strings.TrimSpace(parts[1]), Src: rest, File: path, Line: l.line})
 			case strings.HasPrefix(t, "deterministic"):
 				_, props, _ := takeLabel(strings.TrimSpace(strings.TrimPrefix(t, "deterministic")) + " ")
 				if len(props) == 0 {
